@@ -51,6 +51,20 @@ theorem optimize_no_new_coverage (chunks : List Chunk) (min x : Nat)
     (h : ∃ c' ∈ optimize chunks min, c'.covers x) : ∃ c ∈ chunks, c.e > min ∧ c.covers x := by
   exact optimize_no_new chunks min x h
 
+/-- **Unmapped query (linear index).**  `query_unmapped` seeks to
+`last_first_record_start_position` = the last linear offset of the last non-empty reference and
+scans from there keeping the records flagged unmapped. Every value of a reference's linear index
+is the start offset of one of THAT reference's records, hence lies strictly before the offset
+`off recs.length` at which the records after this reference (later references, then the unplaced
+unmapped tail of a coordinate-sorted file) begin: the scan starts before every unplaced record, so
+none is missed; the flag filter makes it return nothing that is not flagged unmapped. -/
+theorem unmapped_seek_before_tail (off : Nat → Nat) (hmono : ∀ a b, a < b → off a < off b)
+    (recs : List Rec) (v : Nat) (hv : v ∈ buildLin off 0 [] recs) : v < off recs.length := by
+  have hinv := buildLin_inv off hmono recs [] [] ⟨by simp, by simp⟩
+  simp only [List.nil_append, List.length_nil] at hinv
+  obtain ⟨j, hj, rfl⟩ := hinv.vals v hv
+  exact hmono _ _ hj
+
 /-- non-vacuity: the F4 witness layout is a valid input (a long record precedes a short one) -/
 example : ValidRecs 14 5 [⟨1, 100000⟩, ⟨50000, 50010⟩] := by
   intro r hr; simp at hr; rcases hr with rfl | rfl <;> decide
